@@ -105,11 +105,13 @@ What is proved
   corollaries of T5 (their own invariant `FlowH.HI` was removed; lean/Uniflow/Proofs/FlowH1..4.lean keep the shared
   definitions and helper lemmas).
 
-Not proved: `C02.flow_answers_eq_ref_full` (kept as a `def`) in general – beyond the classes of the table:
-one-to-many nodes with more than 6 out ports (the pump `backStep` only looks at writers `< maxW`); many-to-one
-nodes with more than 63 in-ports (reader keys `n*64+port`, tag `n*64+63` is the action tag); a many-to-one action
-returning several packets (`many`); one packet object that is NOT the in packet returned on several out ports
-(`[q, q]`: `node.derive` copies the second one – not expressible in the schedules of `Flow.Ext`).
+**Without a class hypothesis**: `C02.flow_answers_eq_ref_all` (lean/Uniflow/Props/C02All.lean) – every well-formed
+workflow (`C02.WorkflowWF`), every schedule, every result shape of every node kind (`FlowN.prog_any`,
+`FlowN.HIe_release` without a schedule hypothesis); T1 … T7 are corollaries. What it leaves out of
+`C02.flow_answers_eq_ref_full` (kept as a `def`): workflows beyond the encoding bounds of `Uniflow.Flow` (1000 nodes,
+62 out ports – `maxW` is 64 now –, 63 in-ports) and association lists `links` that are not well-formed (a link to a
+missing in-port, an in-port twice on one out port, links under keys that are no writer) – see the headers of
+Props/C02All.lean and Props/C02Flow.lean.
 It is checked on every run of `bin/check C02` instead: `S1` after every step, `F…`/`M1` at the end.
 The statement requires the source to be linked (a request written to an unlinked source is never
 answered and has no reference answer).
